@@ -412,6 +412,14 @@ def check_source(trace, stats=None, cuts=None, corruptions=None):
                     grec = c07.run_load(name, fmt, "load_many", faults.apply(data0, exact), ("exhaust", 0), None, budget)
                     n_eval += 1
                     tolerated = grec["exc"] is None and len(grec["frames"]) == N and "LoadWarning" not in grec["warnings"]
+                    if not tolerated and width >= 3:
+                        # second kind of garbage: the number with one inner character replaced by a byte that is not
+                        # valid UTF-8 (bit rot); a reader that drops undecodable bytes would silently read another number
+                        orig = ls_[line][tk.start():tk.end()].decode("latin-1")
+                        exact = {**f, "token": orig[:1] + "\xff" + orig[2:], "keep_width": True, "latin1": True}
+                        grec = c07.run_load(name, fmt, "load_many", faults.apply(data0, exact), ("exhaust", 0), None, budget)
+                        n_eval += 1
+                        tolerated = grec["exc"] is None and len(grec["frames"]) == N and "LoadWarning" not in grec["warnings"]
                     if tolerated and prec["exc"] is None and len(prec["frames"]) == N and numeric_fields_differ(prec["frames"][m], base["frames"][m]):
                         if stats is not None:
                             stats.inc("probe.numeric_field_sensitivity_established")
